@@ -69,4 +69,31 @@ inductive Actor
   | taskExecutor | trackPreparator | worker | driver | benchmark | startSender
 deriving Repr, DecidableEq
 
+/-! ### the worker's poll: `Worker.receiveMsg_WakeupMessage` as a decision -/
+
+/-- `Worker.executor_future` as the handler sees it -/
+inductive Fut
+  | none | running | doneOk | doneExc
+deriving Repr, DecidableEq
+
+/-- what one wake-up of a worker does, in order -/
+inductive PollAct
+  | clearStartDriving | drive | shipSamples | sendCancelled | sendFailure | clearFuture | rearm
+deriving Repr, DecidableEq
+
+def poll (startDriving cancel : Bool) (f : Fut) : List PollAct :=
+  if startDriving then [.clearStartDriving, .drive]
+  else .shipSamples ::
+    (if cancel then [.sendCancelled]
+     else match f with
+       | .doneExc => [.sendFailure]
+       | .doneOk => [.clearFuture, .drive]
+       | .none => [.rearm]
+       | .running => [.rearm])
+
+/-- the four ways a wake-up can end -/
+def PollAct.isOutcome : PollAct → Bool
+  | .drive | .sendCancelled | .sendFailure | .rearm => true
+  | _ => false
+
 end RaceCtl
